@@ -34,7 +34,8 @@ try:
     pkgname = m.group(1)
     # placement directory: first "dir/" mentioned in the header that exists
     hdr = src[:src.index("package " + pkgname)]
-    cands = re.findall(r"([A-Za-z0-9_./-]+/)", hdr)
+    cands = [c.rstrip("/.") + "/" for c in re.findall(r"([A-Za-z0-9_.-]+(?:/[A-Za-z0-9_.-]+)+/?)", hdr)]
+    cands += re.findall(r"([A-Za-z0-9_./-]+/)", hdr)
     place = None
     for c in cands:
         c = c.strip("./")
